@@ -24,6 +24,9 @@ def key_of(clause, label, prog, tr, l):
 
 
 def run(chk):
+    from harness.checks import _ctxlife
+    # the life cycle of the context object across runs (to_dict / from_dict / run(ctx=...) are its edges): CtxLife.tla
+    _ctxlife.run(chk)
     rng = random.Random(chk.seed)
     items = []
     for (label, prog, ext) in sc.family("resume", quick=chk.quick):
